@@ -92,6 +92,8 @@ def check_reader(path, variant, hdr, dtype, written, reported, problems, where, 
         if len(r.header['coords']) != len(hdr['coords']) or not all(same_bits(a, b) for a, b in zip(r.header['coords'], hdr['coords'])):
             problems.append(f'{where}: coords differ')
     n = r.nFields
+    if len(r.times) != n:
+        problems.append(f'{where}: len(times)={len(r.times)} but nFields={n}')
     if n != len(reported):
         problems.append(f'{where}: nFields={n}, model says {len(reported)} records {reported}')
         return
@@ -135,6 +137,29 @@ def check_reader(path, variant, hdr, dtype, written, reported, problems, where, 
             problems.append(f'{where}: a new process reads different data: {out}')
 
 
+def check_handle(o, written, reported, problems, where):
+    """what a handler object that has been alive for a while reports must be what a fresh reader sees"""
+    try:
+        n = o.nFields
+        times = o.times
+    except Exception as e:  # noqa
+        problems.append(f'{where}: {type(e).__name__}: {e}')
+        return
+    if n != len(reported) or len(times) != len(reported):
+        problems.append(f'{where}: nFields={n}, len(times)={len(times)}, a fresh reader sees {len(reported)} records')
+        return
+    for i, rid in enumerate(reported):
+        if rid == -1:
+            continue
+        t, f = o.readField(i)
+        if not (np.float64(t).tobytes() == np.float64(written[rid][0]).tobytes() and same_bits(f, written[rid][1])):
+            problems.append(f'{where}: record {i} is not the data of write #{rid}')
+    if n > 0 and reported[-1] != -1:
+        t, f = o.readField(-1)
+        if not same_bits(f, written[reported[-1]][1]):
+            problems.append(f'{where}: readField(-1) is not the last record')
+
+
 def replay(hist, final, variant, workdir, H, R, rng, mode='pick', newproc=False):
     """returns list of problems (strings); several realisations (crash offsets) of one abstract behaviour"""
     from pySDC.helpers.fieldsIO import FieldsIO
@@ -147,7 +172,7 @@ def replay(hist, final, variant, workdir, H, R, rng, mode='pick', newproc=False)
         nonlocal nreal
         nreal += 1
         path = os.path.join(workdir, f'f{rng.randint(0, 10**9)}.pysdc')
-        obj, dtype, hdr = None, None, None
+        objs, dtype, hdr = {}, None, None
         written = {}
         FieldsIO.ALLOW_OVERWRITE = False
         last_rec = None
@@ -157,9 +182,12 @@ def replay(hist, final, variant, workdir, H, R, rng, mode='pick', newproc=False)
                 inflight = e['op'] == 'done' or (e['op'] == 'crash' and e['kind'] != 'idle')
                 if os.path.exists(path) and e['hok'] and hdr is not None and not inflight:
                     check_reader(path, variant, hdr, dtype, written, list(e['pre']), problems, 'before ' + where)
+                    for hh, o in objs.items():
+                        if o is not None and getattr(o, 'initialized', False):
+                            check_handle(o, written, list(e['pre']), problems, f'before {where} through live handler {hh}')
                 op = e['op']
                 if op == 'new':
-                    obj, dtype, hdr_new = _new_object(variant, path)
+                    objs[e['h']], dtype, hdr_new = _new_object(variant, path)
                     if hdr is None:
                         hdr = hdr_new
                 elif op == 'allow':
@@ -167,7 +195,7 @@ def replay(hist, final, variant, workdir, H, R, rng, mode='pick', newproc=False)
                 elif op == 'init':
                     before = open(path, 'rb').read() if os.path.exists(path) else None
                     try:
-                        obj.initialize()
+                        objs[e['h']].initialize()
                         if not e['ok']:
                             problems.append(f'{where}: existing file overwritten although overwriting is disabled')
                         written = {} if e['ok'] else written
@@ -181,7 +209,7 @@ def replay(hist, final, variant, workdir, H, R, rng, mode='pick', newproc=False)
                     rid = e['id']
                     t, f = _time(rid), _field(variant, dtype, rid)
                     written[rid] = (t, f)
-                    obj.addField(t, f)
+                    objs[e['h']].addField(t, f)
                     last_rec = ('r', 8 + f.nbytes)
                 elif op == 'done':
                     pass
@@ -192,22 +220,22 @@ def replay(hist, final, variant, workdir, H, R, rng, mode='pick', newproc=False)
                         size = os.path.getsize(path)
                         with open(path, 'r+b') as fh:
                             fh.truncate(size - real_total + j)
-                    obj = None
+                    objs = {}
                 elif op == 'reopen':
                     try:
                         o2 = FieldsIO.fromFile(path)
                         if e['ok']:
-                            obj = o2
+                            objs[e['h']] = o2
                         else:
                             if o2.nFields > 0:
                                 problems.append(f'{where}: file with an incomplete header reports {o2.nFields} fields')
-                            obj = None
+                            objs[e['h']] = None
                     except Exception as ex:  # noqa
                         if e['ok']:
                             problems.append(f'{where}: fromFile failed: {type(ex).__name__}: {ex}')
-                        obj = None
+                        objs[e['h']] = None
                 elif op == 'close':
-                    obj = None
+                    objs[e['h']] = None
             if os.path.exists(path) and final['headerok'] and hdr is not None:
                 check_reader(path, variant, hdr, dtype, written, list(final['reported']), problems, 'at the end',
                              newproc=newproc)
